@@ -59,7 +59,8 @@ package ggql
 //@ -- T! for T, a member for its union, an implementing object for its interface, and element-wise through wrappers)
 //@ spec memberUpTo(u *Union, sub Type, n int) bool = exists j int {u.Members[j]} :: 0 <= j && j < n && sameT(u.Members[j], sub)
 //@ spec implementsUpTo(o *Object, target Type, n int) bool = exists j int {o.Interfaces[j]} :: 0 <= j && j < n && sameT(o.Interfaces[j], target)
-//@ spec subT(target Type, sub Type) bool reads H_List.Base, H_NonNull.Base, H_Union.Members, H_Object.Interfaces, SH_Iface
+//@ spec subT(target Type, sub Type) bool reads H_List.Base, H_NonNull.Base, H_Union.Members, H_Object.Interfaces, SH_Iface$Type
+//@ stable subT, sameT, wfT
 //@ axiom subTUnfold(target Type, sub Type): subT(target, sub) <==> (sameT(target, sub) || (is(sub, *NonNull) && sameT(target, as(sub, *NonNull).Base)) || (is(target, *Union) && memberUpTo(as(target, *Union), sub, len(as(target, *Union).Members))) || (is(target, *Interface) && is(sub, *Object) && as(sub, *Object) != nil && implementsUpTo(as(sub, *Object), target, len(as(sub, *Object).Interfaces))) || (is(target, *List) && is(sub, *List) && as(sub, *List) != nil && subT(as(target, *List).Base, as(sub, *List).Base)) || (is(target, *NonNull) && is(sub, *NonNull) && as(sub, *NonNull) != nil && subT(as(target, *NonNull).Base, as(sub, *NonNull).Base)))
 //@ func (*Object).isSubType
 //@   props C03 C13
@@ -79,24 +80,109 @@ package ggql
 //@   loop 1: use wfTUnfold(i)
 //@           invariant[none-yet]{C13} !implementsUpTo(ot, target, rangeindex+1)
 
+//@ -- an object field against the interface field of the same name: the type is a sub-type, every interface argument is there
+//@ -- with the same type, and an argument the interface does not have is optional
+//@ spec objArg(fo *FieldDef, name string) *Arg = ite(fo.args.dict == nil, nil, fo.args.dict[name])
+//@ spec missingArgUpTo(fo *FieldDef, fi *FieldDef, n int) bool = exists j int {fi.args.list[j]} :: 0 <= j && j < n && objArg(fo, fi.args.list[j].N) == nil
+//@ spec badExtraArgUpTo(fo *FieldDef, fi *FieldDef, n int) bool = exists j int {fo.args.list[j]} :: 0 <= j && j < n && ite(objArg(fi, fo.args.list[j].N) == nil, is(fo.args.list[j].Type, *NonNull), !sameT(objArg(fi, fo.args.list[j].N).Type, fo.args.list[j].Type))
+//@ spec fieldFits(fo *FieldDef, fi *FieldDef) bool = subT(fi.Type, fo.Type) && !missingArgUpTo(fo, fi, len(fi.args.list)) && !badExtraArgUpTo(fo, fi, len(fo.args.list))
 //@ func (*Object).validateField
-//@   props C03
+//@   props C03 C13
 //@   check panic {C03}
 //@   requires t != nil && fo != nil && fi != nil
+//@   ensures[fits]{C13} len(errs) == 0 <==> old(fieldFits(fo, fi))
 //@   assigns fresh
+//@   loop 0: invariant[bounds] rangeindex+1 <= len(fi.args.list)
+//@           invariant[found]{C13} len(errs) > 0 <==> old(!subT(fi.Type, fo.Type) || missingArgUpTo(fo, fi, rangeindex+1))
+//@           decreases len(fi.args.list) - rangeindex
+//@   loop 1: invariant[bounds] rangeindex+1 <= len(fo.args.list)
+//@           invariant[found]{C13} len(errs) > 0 <==> old(!subT(fi.Type, fo.Type) || missingArgUpTo(fo, fi, len(fi.args.list)) || badExtraArgUpTo(fo, fi, rangeindex+1))
+//@           decreases len(fo.args.list) - rangeindex
 
+//@ -- an object against one of its interfaces: every field of the interface is a field of the object, and fits
+//@ spec objField(t *Object, name string) *FieldDef = ite(t.fields.dict == nil, nil, t.fields.dict[name])
+//@ spec providesDef(t *Object, i *Interface) bool = forall name string {i.fields.dict[name]} :: has(i.fields.dict, name) ==> objField(t, name) != nil && fieldFits(objField(t, name), i.fields.dict[name])
+//@ -- provides is kept opaque outside validateInterface (unfolded by axiom there); it reads exactly what its definition reads,
+//@ -- all of it reachable from t and i
+//@ spec provides(t *Object, i *Interface) bool reads H_Arg.Type, H_Base.N, H_FieldDef.Type, H_List.Base, H_NonNull.Base, H_Object.Interfaces, H_Union.Members, H_argList.dict, H_argList.list, H_fieldList.dict, MD_Str_Int, MH_Str_Int, SH_Iface$Type, SH_Int
+//@ stable provides
+//@ axiom providesUnfold(t *Object, i *Interface): provides(t, i) <==> providesDef(t, i)
 //@ func (*Object).validateInterface
-//@   props C03
+//@   props C03 C13
 //@   check panic {C03}
 //@   requires t != nil && i != nil
+//@   ensures[provides]{C13} len(errs) == 0 ==> old(provides(t, i))
+//@   ensures[refuses]{C13} len(errs) > 0 ==> !old(provides(t, i))
+//@   use providesUnfold(t, i)
 //@   assigns fresh
+//@   loop 0: invariant[seen-in-domain] forall name string {seen(0, name)} :: seen(0, name) ==> old(has(i.fields.dict, name))
+//@           invariant[so-far-ok]{C13} len(errs) == 0 ==> (forall name string {seen(0, name)} :: seen(0, name) ==> old(objField(t, name) != nil && fieldFits(objField(t, name), i.fields.dict[name])))
+//@           invariant[so-far-bad]{C13} len(errs) > 0 ==> (exists name string {seen(0, name)} :: seen(0, name) && !old(objField(t, name) != nil && fieldFits(objField(t, name), i.fields.dict[name])))
+//@           invariant[domain] forall name string {indomain(0, name)} :: indomain(0, name) <==> old(has(i.fields.dict, name))
+//@           invariant[domain-of] forall name string {old(i.fields.dict[name])} :: old(has(i.fields.dict, name)) ==> indomain(0, name)
 
+//@ -- objects: at least one field, well-formed fields, every listed interface an interface type that the object provides
+//@ spec badInterface(t *Object, it Type) bool = !is(it, *Interface) || !provides(t, as(it, *Interface))
+//@ spec badInterfaceUpTo(t *Object, n int) bool = exists j int {t.Interfaces[j]} :: 0 <= j && j < n && badInterface(t, t.Interfaces[j])
+//@ axiom validDefObject(t *Object): t != nil ==> (validDef(box(t)) <==> (len(t.fields.list) > 0 && !badFieldUpTo(t.fields.list, len(t.fields.list)) && !badInterfaceUpTo(t, len(t.Interfaces))))
 //@ func (*Object).Validate
-//@   props C03
+//@   props C03 C13
 //@   check panic {C03}
 //@   requires t != nil
 //@   requires fieldDefsOk(t.fields.list)
+//@   ensures[no-fields]{C13} old(len(t.fields.list) == 0) ==> len(errs) > 0
+//@   ensures[bad-field]{C13} old(badFieldUpTo(t.fields.list, len(t.fields.list))) ==> len(errs) > 0
+//@   ensures[bad-interface]{C13} old(badInterfaceUpTo(t, len(t.Interfaces))) ==> len(errs) > 0
+//@   ensures[accepts]{C13} old(len(t.fields.list) > 0 && !badFieldUpTo(t.fields.list, len(t.fields.list)) && !badInterfaceUpTo(t, len(t.Interfaces))) ==> len(errs) == 0
+//@   ensures[valid]{C13} len(errs) == 0 <==> old(validDef(box(t)))
+//@   use validDefObject(t)
 //@   assigns fresh
+//@   loop 0: invariant[bounds] rangeindex+1 <= len(t.Interfaces)
+//@           invariant[found-a]{C13} len(errs) > 0 ==> old(badInterfaceUpTo(t, rangeindex+1))
+//@           invariant[found-b]{C13} old(badInterfaceUpTo(t, rangeindex+1)) ==> len(errs) > 0
+//@           decreases len(t.Interfaces) - rangeindex
+
+//@ -- the schema type: only the three root fields, and the rules of an object
+//@ spec rootFieldName(name string) bool = name == "query" || name == "mutation" || name == "subscription"
+//@ spec onlyRootFields(t *Schema) bool = forall name string {t.fields.dict[name]} :: has(t.fields.dict, name) ==> rootFieldName(name)
+//@ axiom validDefSchema(t *Schema): t != nil ==> (validDef(box(t)) <==> (onlyRootFields(t) && validDef(box(embed0(t)))))
+//@ func (*Schema).Validate
+//@   props C03 C13
+//@   check panic {C03}
+//@   requires t != nil && root != nil
+//@   requires fieldDefsOk(t.fields.list)
+//@   ensures[other-field]{C13} !old(onlyRootFields(t)) ==> len(errs) > 0
+//@   ensures[valid]{C13} len(errs) == 0 <==> old(validDef(box(t)))
+//@   use validDefSchema(t)
+//@   assigns fresh
+//@   loop 0: invariant[seen-in-domain] forall name string {seen(0, name)} :: seen(0, name) ==> old(has(t.fields.dict, name))
+//@           invariant[domain-of] forall name string {old(t.fields.dict[name])} :: old(has(t.fields.dict, name)) ==> indomain(0, name)
+//@           invariant[so-far-ok]{C13} len(errs) == 0 ==> (forall name string {seen(0, name)} :: seen(0, name) ==> rootFieldName(name))
+//@           invariant[so-far-bad]{C13} len(errs) > 0 ==> (exists name string {seen(0, name)} :: seen(0, name) && !rootFieldName(name))
+
+//@ -- directives: declared locations are locations; arguments have well-formed names and input types
+//@ spec badLocUpTo(on []Location, n int) bool = exists j int {on[j]} :: 0 <= j && j < n && !isLoc(on[j])
+//@ spec badDirArg(a *Arg) bool = !goodName(a.N, a.core) || !is(a.Type, InCoercer)
+//@ spec badDirArgUpTo(as []*Arg, n int) bool = exists j int {as[j]} :: 0 <= j && j < n && badDirArg(as[j])
+//@ axiom validDefDirective(t *Directive): t != nil ==> (validDef(box(t)) <==> (!badLocUpTo(t.On, len(t.On)) && !badDirArgUpTo(t.args.list, len(t.args.list))))
+//@ func (*Directive).Validate
+//@   props C03 C13
+//@   check panic {C03}
+//@   requires t != nil && root != nil
+//@   requires[own-name-registered] dirName(t.N)
+//@   ensures[bad-location]{C13} old(badLocUpTo(t.On, len(t.On))) ==> len(errs) > 0
+//@   ensures[bad-argument]{C13} old(badDirArgUpTo(t.args.list, len(t.args.list))) ==> len(errs) > 0
+//@   ensures[valid]{C13} len(errs) == 0 ==> old(validDef(box(t)))
+//@   use validDefDirective(t)
+//@   loop 0: invariant[bounds] rangeindex+1 <= len(t.On)
+//@           invariant[found]{C13} old(badLocUpTo(t.On, rangeindex+1)) ==> len(errs) > 0
+//@           decreases len(t.On) - rangeindex
+//@   loop 1: invariant[bounds] rangeindex+1 <= old(len(t.args.list))
+//@           invariant[bad-location]{C13} old(badLocUpTo(t.On, len(t.On))) ==> len(errs) > 0
+//@           invariant[found]{C13} old(badDirArgUpTo(t.args.list, rangeindex+1)) ==> len(errs) > 0
+//@   loop 2: invariant[outer-bounds] 0 <= rangeindex_outer+1 && rangeindex_outer+1 < old(len(t.args.list))
+//@           invariant[bad-location]{C13} old(badLocUpTo(t.On, len(t.On))) ==> len(errs) > 0
+//@           invariant[found]{C13} old(badDirArgUpTo(t.args.list, rangeindex_outer+2)) ==> len(errs) > 0
 
 //@ -- ------------------------------------------------------------------ directive loops: the recursion ends because every
 //@ -- descent marks one more directive name, and there are only #D of them
